@@ -114,6 +114,16 @@ def scaleAt (k : Nat) (c : Rat) : List Rat → List Rat
 def Row.scaleCol (k : Nat) (c d : Rat) (r : Row) : Row :=
   { r with w := scaleAt k c r.w, frac := scaleAt k d r.frac }
 
+/-! ### (2b) the reweighted mean path length (second estimator of the check) -/
+
+/-- Σ_rows frac_k/w_k · length -/
+def lenNum (k : Nat) (rows : List Row) : Rat := sumOver (fun r => term k r * (r.len : Rat)) rows
+
+/-- the reweighted mean number of frames of column k, Σ a·len / Σ a with a = frac_k/w_k
+    (`harness/lattice/sim.py` `length_stats` / `mean_length_exact`); `none` when no row carries weight -/
+def meanLenEst (k : Nat) (rows : List Row) : Option Rat :=
+  if den k rows = 0 then none else some (lenNum k rows / den k rows)
+
 /-! ### (3) shooting on lattice paths: the length factor -/
 
 inductive Variant where
